@@ -882,6 +882,27 @@ theorem sortGo_ne_circular : ∀ (rc : Nat) (ms s : List Model) (u : List Path),
       · exact ih _ _ _ ((hsub.map (·.path)).nodup hnd) (hac.sublist hsub)
       · exact finish_ne_circular _ ((hsub.map (·.path)).nodup hnd) (hac.sublist hsub)
 
+/-! ### an order with bases first is a witness of acyclicity -/
+
+theorem acyclic_of_bases_first (ms fx : List Model) (hperm : fx.Perm ms)
+    (hnd : (fx.map (·.path)).Nodup)
+    (hfirst : ∀ l1 m l2, fx = l1 ++ m :: l2 → ∀ b ∈ m.bases, b ∈ fx.map (·.path) → b ∈ l1.map (·.path)) :
+    Acyclic ms := by
+  refine ⟨fun p => (fx.map (·.path)).idxOf p, ?_⟩
+  intro m hm b hb hbn
+  have hmfx : m ∈ fx := hperm.mem_iff.mpr hm
+  obtain ⟨l1, l2, rfl⟩ := List.append_of_mem hmfx
+  have hbfx : b ∈ (l1 ++ m :: l2).map (·.path) := ((hperm.map (·.path)).mem_iff).mpr hbn
+  have hb1 := hfirst l1 m l2 rfl b hb hbfx
+  have hm1 : m.path ∉ l1.map (·.path) := by
+    intro h
+    simp only [List.map_append, List.map_cons] at hnd
+    exact (List.nodup_append.mp hnd).2.2 _ h _ (List.mem_cons_self ..) rfl
+  simp only [List.map_append, List.map_cons]
+  rw [List.idxOf_append, if_pos hb1, List.idxOf_append, if_neg hm1, List.idxOf_cons_self]
+  have := List.idxOf_lt_length_of_mem hb1
+  omega
+
 /-! ### the 2-cycle -/
 
 def cycA : Model := ⟨0, [1], [1]⟩
@@ -898,5 +919,24 @@ theorem bubble_cycle_none : ∀ f, bubble f [cycA, cycB] = none ∧ bubble f [cy
     constructor
     · rw [bubble]; simp only [pass_cycle_AB]; rw [if_neg (by decide)]; exact ih.2
     · rw [bubble]; simp only [pass_cycle_BA]; rw [if_neg (by decide)]; exact ih.1
+
+
+/-! ### `__sort_models` on a 2-cycle -/
+
+def nmA : Named := ⟨[65], [[66]]⟩
+def nmB : Named := ⟨[66], [[65], [66]]⟩
+
+theorem swapLoop_cycle_none : ∀ f, swapLoop [] f [nmA, nmB] = none ∧ swapLoop [] f [nmB, nmA] = none := by
+  intro f
+  induction f with
+  | zero => exact ⟨rfl, rfl⟩
+  | succ f ih =>
+    constructor
+    · have h : sweep [] nmA [] false [nmB] = ([nmB, nmA], true) := by decide
+      simp only [swapLoop, h]
+      exact ih.2
+    · have h : sweep [] nmB [] false [nmA] = ([nmA, nmB], true) := by decide
+      simp only [swapLoop, h]
+      exact ih.1
 
 end Dcg.Proofs.Sort
